@@ -105,7 +105,8 @@ func (t *Ticket) Unmarshal(b []byte) error {
 
 // Marshal the Ticket.
 func (t *Ticket) Marshal() ([]byte, error) {
-	b, err := asn1.Marshal(*t)
+	// The decrypted part is not part of the encoding and must never be sent
+	b, err := asn1.Marshal(Ticket{TktVNO: t.TktVNO, Realm: t.Realm, SName: t.SName, EncPart: t.EncPart})
 	if err != nil {
 		return nil, err
 	}
